@@ -62,7 +62,16 @@ def _check_tier(case):
     def run(subclassed):
         t = mk(state)
         o = [mk(s) for s in compose.OTHERS[state[0]]] + [mk(live.LATE[state[0]])]
-        if subclassed:
+        if subclassed and role.startswith("span-given-as-"):
+            # the constructor's minT / maxT given as exact decimal / rational / (where integral) int values: the constructor has always turned
+            # them into floats, so the tier is the same tier
+            import decimal
+            import fractions
+            conv = {"span-given-as-Decimal": lambda x: decimal.Decimal(repr(float(x))), "span-given-as-Fraction": lambda x: fractions.Fraction(float(x)),
+                    "span-given-as-int": lambda x: int(x) if float(x).is_integer() else x}[role]
+            kind, name, lo, hi, entries = state
+            t = (IT if kind == "I" else PT)(name, list(entries), conv(lo), conv(hi))
+        elif subclassed:
             if role in ("receiver", "both"):
                 t = _sub(t)
             if role in ("arguments", "both"):
@@ -71,8 +80,9 @@ def _check_tier(case):
         return _norm(res), canon(t), [canon(x) for x in o]
     plain, sub = run(False), run(True)
     if plain != sub:
-        return 2, "!", None, [Viol("subclass-instance-treated-differently",
-                                   f"{name} on {state} with trivial subclasses (class WordTier(IntervalTier) / ClickTier(PointTier)) as {role}: "
+        return 2, "!", None, [Viol("subclass-instance-treated-differently" if not role.startswith("span") else "tier-with-" + role + "-treated-differently",
+                                   f"{name} on {state} with " + ("trivial subclasses (class WordTier(IntervalTier) / ClickTier(PointTier)) as " + role
+                                                                 if not role.startswith("span") else "the receiver constructed with its " + role) + ": "
                                    f"{str(sub)[:400]}; with plain tiers: {str(plain)[:400]}")]
     return 2, "ok", (state[0], name, role), []
 
@@ -134,7 +144,7 @@ def part(prop):
 
     def gen():
         for si, pi in tier_cases:
-            for role in ("receiver", "arguments", "both"):
+            for role in ("receiver", "arguments", "both", "span-given-as-Decimal", "span-given-as-Fraction", "span-given-as-int"):
                 yield ("tier", (si, pi, role))
         for si, pi in tg_cases:
             yield ("tg", (si, pi))
@@ -147,4 +157,5 @@ def part(prop):
                      rule="every producer of this property run with instances of trivial user subclasses (class WordTier(IntervalTier), ClickTier(PointTier), "
                           "ProjectTextgrid(Textgrid), nothing overridden) as receiver, as arguments, as both, and as the tiers of a textgrid; every written "
                           "form of such a textgrid: same values (names, spans, entries, exception classes, file bytes, re-read content) as with plain "
-                          "instances; the class of a returned object is not compared", bounds={}, chunk=8)
+                          "instances; the class of a returned object is not compared; likewise with the receiver constructed with minT / maxT given as "
+                          "decimal.Decimal, fractions.Fraction or int values (the constructor converts them)", bounds={}, chunk=8)
